@@ -1,6 +1,8 @@
 #!/usr/bin/env python3
-"""Prints the markdown table of DESIGN.md section 6 from seeded/*/meta.json and seeded/results.jsonl."""
-import json, glob, os
+"""Prints the markdown table of DESIGN.md section 6 from seeded/*/meta.json and seeded/results.jsonl.
+With --finalize: rewrites results.jsonl keeping the last valid run per (seed, check) and records the
+outcome in each seeded/<id>/meta.json under "evaluated"."""
+import json, glob, os, sys
 os.chdir(os.path.join(os.path.dirname(os.path.abspath(__file__)), '..'))
 res = {}
 if os.path.exists('seeded/results.jsonl'):
@@ -9,19 +11,32 @@ if os.path.exists('seeded/results.jsonl'):
             r = json.loads(l)
         except Exception:
             continue
+        if r.get('rc') not in (0, 1, 2):
+            continue  # aborted run
         res[(r['seed'], r['check'])] = r
-print('| seed | what it breaks (needs to manifest) | check run | verdict | first failing harness |')
+VERDICT = {0: 'MISSED (check passes)', 1: 'CAUGHT (VIOLATION, reproduced natively)', 2: 'inconclusive (exit 2)'}
+if '--finalize' in sys.argv:
+    with open('seeded/results.jsonl', 'w') as f:
+        for k in sorted(res):
+            f.write(json.dumps(res[k]) + '\n')
+print('| seed | what it breaks | check run (quick tier) | verdict | first failing assertion |')
 print('|---|---|---|---|---|')
 for d in sorted(glob.glob('seeded/*/')):
     name = os.path.basename(d.rstrip('/'))
     meta = {}
     if os.path.exists(d + 'meta.json'):
         meta = json.load(open(d + 'meta.json'))
-    what = (meta.get('breaks') or meta.get('what') or '').replace('|', '/').replace('\n', ' ')[:160]
-    need = (meta.get('needs_to_manifest') or '').replace('|', '/').replace('\n', ' ')[:140]
-    rows = [r for (s, c), r in res.items() if s == name]
+    what = (meta.get('breaks') or meta.get('what') or '').replace('|', '/').replace('\n', ' ')
+    what = what[:230] + ('…' if len(what) > 230 else '')
+    rows = [r for (s, c), r in sorted(res.items()) if s == name]
+    if '--finalize' in sys.argv and meta:
+        meta['evaluated'] = [{'check': r['check'], 'tier': 'quick', 'exit': r['rc'], 'verdict': VERDICT[r['rc']],
+                              'violations': r.get('violations'), 'wall_s': r.get('wall_s'),
+                              'first_failed': r.get('first_failed', '').strip(),
+                              'log': f"seeded/{name}/detect_{r['check']}.log"} for r in rows]
+        json.dump(meta, open(d + 'meta.json', 'w'), indent=1)
     if not rows:
-        print(f'| {name} | {what} ({need}) | - | not run | |')
+        print(f'| {name} | {what} | - | not run | |')
     for r in rows:
-        verdict = {0: 'MISSED (check passes)', 1: 'CAUGHT (VIOLATION, reproduced natively)', 2: 'inconclusive'}.get(r['rc'], str(r['rc']))
-        print(f"| {name} | {what} ({need}) | {r['check']} quick, {r['wall_s']} s | {verdict} | {r.get('first_failed','')[:120].replace('|','/')} |")
+        ff = r.get('first_failed', '').replace('FAILED', '').strip()[:150].replace('|', '/')
+        print(f"| {name} | {what} | {r['check']}, {r['wall_s']} s | {VERDICT[r['rc']]} | {ff} |")
